@@ -507,6 +507,24 @@ pub fn insert_comments(src: &str, ins: &[(usize, CStyle)]) -> String {
     let mut pos = 0;
     for (o, i, s) in v {
         out.push_str(&src[pos..o]);
+        if matches!(s, CStyle::LineOwnBlankAfter | CStyle::LineOwnBlankBefore) {
+            // the comment line follows the previous element's line directly (no blanks left behind it)
+            let mut indent = String::new();
+            while out.ends_with(' ') || out.ends_with('\t') {
+                indent.insert(0, out.pop().unwrap());
+            }
+            let t = comment_text(s, i + 1);
+            // already at the start of a line: the style's own leading newline would add a blank line, and the
+            // element keeps its indentation after the comment
+            if out.ends_with('\n') {
+                out.push_str(&t[1..]);
+                out.push_str(&indent);
+            } else {
+                out.push_str(&t);
+            }
+            pos = o;
+            continue;
+        }
         out.push_str(&comment_text(s, i + 1));
         pos = o;
     }
